@@ -64,7 +64,9 @@ def render_batch(items, extra=None, prelude=""):
         if role == "invariant":
             w.append("    @icontract.invariant(lambda self: {}{})\n    class K{}(Holder):\n        pass\n    fs[{}] = K{}\n".format(cond, extra.get(idx, ""), idx, idx, idx))
         else:
-            ps = ", ".join(expr.free_params(cond) + expr.own_default_params(cond))
+            # every third condition gives default values to its parameters; the call supplies all of them, so that a
+            # default of the condition never applies (nor shows in a message)
+            ps = ", ".join([p + ("=IMPOSSIBLE" if idx % 3 == 1 else "") for p in expr.free_params(cond)] + expr.own_default_params(cond))
             w.append("    @icontract.{}(lambda {}: {}{})\n    def f{}({}):\n        return 1\n    fs[{}] = f{}\n".format(
                 role, ps, cond, extra.get(idx, ""), idx, allp, idx, idx))
     # LATE is unbound again when the functions are called: a condition may name it only where Python does not read it
@@ -368,6 +370,115 @@ def check_batch(batch, acc, vals, level):
         core.unload_source(ns)
 
 
+# ---------------------------------------------------------------------------------------------
+# private (name-mangled) names: the compiler renames ``__name`` written inside a class body to ``_Class__name`` - and only there
+
+PRIVATE_SRC = '''\
+import icontract
+__limit = 1
+_C__limit = 100
+__free = 3
+class Q:
+    def __init__(self):
+        self.__dict__['__v'] = 1
+        self._k__v = 100
+    def __repr__(self):
+        return "Q()"
+@icontract.require(lambda q: q._k__v < 0 or q.__v < 0)
+def module_level(q):
+    pass
+@icontract.require(lambda q: q.__v < 0 or q._k__v < 0)
+def module_level_other_order(q):
+    pass
+@icontract.require(lambda x: x < __free)
+def module_level_global(x):
+    pass
+class C:
+    def __init__(self):
+        self.__v = 5
+        self._Other__v = 50
+    def __repr__(self):
+        return "C()"
+    @icontract.require(lambda self, x: x < __limit)
+    def uses_private_global(self, x):
+        pass
+    @icontract.require(lambda self, x: (__t := x) > 5 and __t < 0)
+    def walrus_private_target(self, x):
+        pass
+    @icontract.require(lambda self: self._Other__v < 0 or self.__v < 0)
+    def foreign_mangled_first(self):
+        pass
+class AnyCallable:
+    """equal to everything (also to the built-in ``all``), gives an empty list when called"""
+    def __eq__(self, other):
+        return True
+    def __hash__(self):
+        return 0
+    def __call__(self, it):
+        return [v for v in it][:0]
+    def __repr__(self):
+        return "AnyCallable()"
+@icontract.require(lambda f, xs: f(x > 0 for x in xs))
+def callable_equal_to_all(f, xs):
+    pass
+@icontract.require(lambda x: f"{(w := x):{w}}" == "")
+def spec_reads_walrus_of_value(x):
+    pass
+@icontract.require(lambda x, s: f"{x!r:>{s}}" == "" or f"{x!s}{x!a}" == "")
+def conversions(x, s):
+    pass
+'''
+# (callable, expected lines "text was repr" that must be in the message, texts that must NOT carry another value)
+PRIVATE_CASES = [
+    ("module_level", lambda ns: ns["module_level"](ns["Q"]()), {"q.__v": "1", "q._k__v": "100"}),
+    ("module_level_other_order", lambda ns: ns["module_level_other_order"](ns["Q"]()), {"q.__v": "1", "q._k__v": "100"}),
+    ("module_level_global", lambda ns: ns["module_level_global"](7), {"__free": "3", "x": "7"}),
+    ("private_global_in_class_body", lambda ns: ns["C"]().uses_private_global(150), {"__limit": "100", "x": "150"}),
+    ("walrus_private_target", lambda ns: ns["C"]().walrus_private_target(7), {"__t": "7", "x": "7"}),
+    ("foreign_mangled_first", lambda ns: ns["C"]().foreign_mangled_first(), {"self.__v": "5", "self._Other__v": "50"}),
+    ("callable_equal_to_all", lambda ns: ns["callable_equal_to_all"](ns["AnyCallable"](), [1, -1]),
+     {"f(x > 0 for x in xs)": "[]", "xs": "[1, -1]", "f": "AnyCallable()"}),
+    ("spec_reads_walrus_of_value", lambda ns: ns["spec_reads_walrus_of_value"](3), {"x": "3", 'f"{(w := x):{w}}"': "'  3'"}),
+    ("conversions", lambda ns: ns["conversions"]("é", 5), {"x": "'é'", "s": "5", 'f"{x!r:>{s}}"': "\"  'é'\"", 'f"{x!s}{x!a}"': "\"é'\\\\xe9'\""}),
+]
+
+
+def check_private(acc):
+    import icontract
+
+    ns = core.load_source(PRIVATE_SRC, "c06p")
+    try:
+        for name, thunk, want in PRIVATE_CASES:
+            def go():
+                try:
+                    return ("ret", thunk(ns))
+                except BaseException as e:  # noqa
+                    return ("exc", e)
+            out = core.fresh_ctx_run(go)
+            acc.case(("private", name), True, len(want), out[0] if out[0] != "exc" else type(out[1]).__name__)
+            bad = None
+            if out[0] != "exc" or type(out[1]) is not icontract.ViolationError:
+                bad = ("falsy_condition_not_reported" if out[0] != "exc" else "no_message_to_judge", "expected ViolationError got {!r}".format(out[1]))
+            else:
+                lines = {}
+                for ln in str(out[1]).splitlines():
+                    if " was " in ln:
+                        t, v = ln.rsplit(" was ", 1)
+                        lines[t.split(": ")[-1].strip()] = v.strip()
+                for t, v in want.items():
+                    if t not in lines:
+                        bad = ("evaluated_subexpression_not_listed", "{!r} (= {}) is not listed in {!r}".format(t, v, str(out[1])))
+                    elif lines[t] != v:
+                        bad = ("wrong_value_shown", "{!r} shown as {} but Python computed {}: {!r}".format(t, lines[t], v, str(out[1])))
+                        break
+            if bad:
+                acc.violation(core.Violation(PROP, bad[0], {"part": "private_names", "case": name, "where": None},
+                                             "private name ({}): {}".format(name, bad[1]), spec={"part": "private"}, script=PRIVATE_SRC))
+        acc.sample({"part": "private_names", "cases": [c[0] for c in PRIVATE_CASES]}, cap=1)
+    finally:
+        core.unload_source(ns)
+
+
 def work(args):
     import warnings
     warnings.simplefilter("ignore", SyntaxWarning)
@@ -375,6 +486,9 @@ def work(args):
     vals = expr.valuations()
     xvals = vals + expr.exotic_valuations()
     for batch, level in args:
+        if level == "private":
+            check_private(acc)
+            continue
         check_batch(batch, acc, xvals if level == "exotic" else vals, level)
     return acc.result()
 
@@ -388,6 +502,7 @@ def run(tier, t0):
     ex = [it for it in indexed if small is None or it[1][3] in small]
     rest = [it for it in indexed if small is not None and it[1][3] not in small]
     batches = [(ex[i:i + BATCH], "exotic") for i in range(0, len(ex), BATCH)] + [(rest[i:i + BATCH], level) for i in range(0, len(rest), BATCH)]
+    batches.append((None, "private"))
     tot = core.merge(core.pmap(work, core.rotate(batches)))
     return core.finish(
         PROP, tier, tot, t0,
@@ -399,7 +514,8 @@ def run(tier, t0):
              "took; the all()-example is the first falsifying assignment; completeness: every representable argument and every "
              "Name/Attribute/Call/Subscript/comprehension evaluated outside a comprehension scope is listed; additionally every node in "
              "icontract._recompute.Visitor.recomputed_values (shown or not) is compared with the recorder: same value, and nothing "
-             "re-computed that Python skipped. "
+             "re-computed that Python skipped. Plus programs with private (name-mangled) names inside and outside class bodies "
+             "with exact expected lines. "
              "non-trivial = every falsy (condition, valuation)".format(
                  len(set(c[1] for c in conds)), ", full products of <=2-slot productions, depth-3 chains" if level >= 3 else ""),
         assumptions=["inline lambdas (documented as unsupported), await and yield are outside the alphabet",
@@ -411,6 +527,12 @@ def run(tier, t0):
 def replay(path):
     data = json.load(open(path))["spec"]
     acc = core.Acc()
+    if data.get("part") == "private":
+        check_private(acc)
+        for v in acc.violations[:5]:
+            print("VIOLATION property={} replay={}".format(PROP, path))
+            print(" ", v.symptom, v.detail[:600])
+        return 1 if acc.violations else 0
     vals = expr.valuations() + expr.exotic_valuations()
     idx = {"require": 0, "ensure": 7, "invariant": 9}[data["role"]]
     cond = data["cond"]
